@@ -5,6 +5,7 @@ import DispatchVerif.Core.Utf8F
 import DispatchVerif.Core.Utf16P
 import DispatchVerif.Core.Utf16F
 import DispatchVerif.Core.Utf16E
+import DispatchVerif.Core.Utf8E
 import DispatchVerif.Core.Utf8Acc
 import DispatchVerif.Core.Utf16Acc
 /-! # C20 — data transforms round-trip and never read outside their input
@@ -62,6 +63,19 @@ theorem utf8_to_utf16_fragmentation_independent (flat : List Nat) (lens : List N
 theorem utf8_to_utf16_never_reads_outside (flat : List Nat) (e : Nat) (he : e ≤ flat.length) (f pos : Nat) (out : List Nat) :
     Utf8P.runTo flat e f pos out ≠ .oob :=
   Utf8P.runTo_no_oob flat e he f pos out
+
+/-- the UTF-8 → UTF-16 loop as written in the source (per-region pointer, `size`, `i`, mapped look-ahead) computes what the
+    position-shaped loop computes -/
+theorem utf8_to_utf16_source_loop_agrees (rs : List (List Nat)) :
+    Utf8P.toUtf16 rs = Utf8P.toUtf16F rs.flatten (rs.map List.length) := Utf8P.toUtf16_eq rs
+
+/-- … so it never reads outside the mapped bytes, for arbitrary bytes and fragmentation -/
+theorem utf8_to_utf16_source_loop_never_reads_outside (rs : List (List Nat)) : Utf8P.toUtf16 rs ≠ .oob :=
+  Utf8P.toUtf16_never_oob rs
+
+/-- … and its result does not depend on the fragmentation -/
+theorem utf8_to_utf16_source_loop_fragmentation_independent (rs : List (List Nat)) (hne : rs ≠ []) (hp : ∀ r ∈ rs, r ≠ []) :
+    Utf8P.toUtf16 rs = Utf8P.toUtf16 [rs.flatten] := Utf8P.toUtf16_fragmentation_independent rs hne hp
 
 /-- **UTF-16 → UTF-8: every way of cutting the object into non-empty regions gives the result of the single-region object** —
     for arbitrary bytes and either byte order, including cuts inside a code unit, between the halves of a surrogate pair
